@@ -58,7 +58,7 @@ def known_flag(chk, clause):
     return any((f.get("match") or {}).get("clause") == clause for f in chk.known)
 
 
-def model_check(chk, parts, ctxs, invs, consts_text, esclen=2, timeout=3000, quick=None):
+def model_check(chk, parts, ctxs, invs, consts_text, esclen=2, timeout=3000, quick=None, module="MC_C17"):
     """One TLC process (1 worker: TLC's string table is a global lock) per family part, in parallel.
     -> (cases, contexts, totals)"""
     known = "TRUE" if known_flag(chk, "RepeatOverMapping") else "FALSE"
@@ -75,8 +75,8 @@ def model_check(chk, parts, ctxs, invs, consts_text, esclen=2, timeout=3000, qui
         sd = tlc.new_scratch("c17cases")
         cf = os.path.join(sd, "cases.json")
         try:
-            res = tlc.check_model("MC_C17", "MC_C17_run.cfg", extra_files={"MC_C17_run.cfg": cfg}, workers=1,
-                                  env={"CASES_FILE": cf}, timeout=timeout, coverage=False)
+            res = tlc.check_model(module, module + "_run.cfg", extra_files={module + "_run.cfg": cfg}, workers=1,
+                                  env={"CASES_FILE": cf}, timeout=timeout, coverage=True)
             data = None
             if os.path.exists(cf):
                 with open(cf) as fp:
@@ -89,17 +89,21 @@ def model_check(chk, parts, ctxs, invs, consts_text, esclen=2, timeout=3000, qui
     with ThreadPoolExecutor(max_workers=max(1, min(procs(), len(jobs)))) as ex:
         results = list(ex.map(one, jobs))
     cases, contexts = [], {}
-    tot = {"distinct": 0, "generated": 0, "cmd": "", "wall": 0.0, "inv": []}
+    tot = {"distinct": 0, "generated": 0, "cmd": "", "wall": 0.0, "inv": [], "actions": {}}
     for fams, cx, res, data in results:
         tot["distinct"] += res["distinct"]
         tot["generated"] += res["generated"]
         tot["cmd"] = res["cmd"]
         tot["wall"] = max(tot["wall"], res["wall_s"])
+        for k, v in (res.get("coverage") or {}).items():
+            name = k.split("@")[0]
+            if name.startswith("Cmd") or name in ("SubReturn", "EndTagResume", "Load"):
+                tot["actions"][name] = tot["actions"].get(name, 0) + v[0]
         if res["inv_violations"]:
             tot["inv"].append((fams, cx, res["inv_violations"], res["out"][-3000:]))
-            chk.model_violation("MC_C17[%s/%s]" % ("+".join(fams), cx), res["inv_violations"], res["out"][-3000:])
+            chk.model_violation("%s[%s/%s]" % (module, "+".join(fams), cx), res["inv_violations"], res["out"][-3000:])
         elif data is None:
-            raise tlc.TLCError("MC_C17 %s wrote no cases:\n%s" % (fams, res["out"][-2000:]))
+            raise tlc.TLCError("%s %s wrote no cases:\n%s" % (module, fams, res["out"][-2000:]))
         if data:
             cases.extend(data["cases"])
             contexts.update(data["contexts"])
@@ -118,11 +122,11 @@ def _init_worker():
 def _run(job):
     from harness import c17_tal
     case, contexts, consts, want_tokens = job
-    return c17_tal.run_case(case, contexts, consts, want_tokens=want_tokens)
+    return c17_tal.run_case(case, contexts, consts, want_tokens=want_tokens, second=case.get("fam") == "doc")
 
 
 def run_cases(cases, contexts, consts, want_tokens=False):
-    from harness.cachelib import pool_map
+    from harness.c17_tal import pool_map
     used = {c["ctx"]["id"] for c in cases}
     small = {k: v for k, v in contexts.items() if k in used}
     jobs = [(c, small, consts, want_tokens) for c in cases]
@@ -174,7 +178,7 @@ def report(chk, runs, tv):
         r = runs[rj["index"]]
         key = "%s|%s" % (rj["clause"], case_key(r))
         case = {"tree": r["init"]["tree"], "ctx": r["init"]["ctx"], "py": r["init"]["py"], "fam": r["init"].get("fam", ""),
-                "template": r["text"]}
+                "var": r["init"].get("var", 0), "kind": r["init"].get("kind", "direct"), "template": r["text"]}
         chk.violation(key, rj["clause"], case, {"final": {k: v for k, v in r["final"].items() if k != "toks"},
                                                 "events": r["events"][:200], "rejected_at_event": rj["at"]})
     seen = set()
@@ -191,7 +195,7 @@ def load_replay(replay):
     with open(replay) as fp:
         rp = json.load(fp)
     c = rp["case"]
-    return [{"fam": c.get("fam", ""), "tree": c["tree"], "ctx": c["ctx"], "py": c["py"]}]
+    return [{"fam": c.get("fam", ""), "tree": c["tree"], "ctx": c["ctx"], "py": c["py"], "var": c.get("var", 0)}]
 
 
 def selftest():
@@ -229,6 +233,11 @@ def main(chk, replay=None):
         _c, contexts, tot = model_check(chk, [["void"]], t["ctxs"], INVS17, consts_text)
     else:
         cases, contexts, tot = model_check(chk, t["parts"], t["ctxs"], INVS17, consts_text)
+    need = ["CmdStartScope", "CmdDefine", "CmdCondition", "CmdRepeat", "CmdContent", "CmdAttributes", "CmdOmitTag", "CmdStartTag",
+            "CmdOutput", "CmdUseMacro", "CmdDefineSlot", "CmdEndTagEndScope", "SubReturn", "EndTagResume"]
+    idle = [a for a in need if not tot["actions"].get(a)]
+    if idle and not replay and not tot["inv"]:
+        raise core.MachineryError("C17: model actions never taken (vacuous model): %s" % idle)
     random.Random(chk.seed).shuffle(cases)
     runs = run_cases(cases, contexts, consts)
     nev = sum(len(r["events"]) for r in runs)
@@ -251,7 +260,7 @@ def main(chk, replay=None):
                     for r in runs[:3]],
         "checker_cmd": tot["cmd"] + " ; " + tv["cmd"],
         "opcode_events": nev, "opcodes_seen": opcodes, "trace_states": tv["states"],
-        "constants_bound": bound, "constants": {k: v for k, v in consts.items() if k != "VoidTags"},
+        "model_actions": tot["actions"], "constants_bound": bound, "constants": {k: v for k, v in consts.items() if k != "VoidTags"},
         "families": sorted({c["fam"] for c in cases}),
         "model_wall_s": tot["wall"], "trace_wall_s": tv["wall_s"],
         "bindings": ["B1 opcode numbers + HTML_FORBIDDEN_ENDTAG imported into the TLC cfg", "B2 every TLC case compiled and expanded by the real simpleTAL",
